@@ -284,6 +284,9 @@ class Run:
         self.assumptions = []
         self.violations = []   # (what, replay_payload)
         self.deviations = {}   # id -> [payload]
+        self.skip_key = None      # event fields that identify the case (checks with a TLC-enumerated case space)
+        self.skipped = {}
+        self.skip_filter = None   # restricts the baseline to the exhaustively enumerated part of the cases
         self.known = {k["deviation"]: k for k in load_known() if k["property"] == pid and k["status"] == "known"}
         self.case_of = None    # optional: event -> the generated case it belongs to (stored in replay files)
 
@@ -303,6 +306,9 @@ class Run:
             ev = events[line - 1] if 0 < line <= len(events) else {}
             if kind == "SKIP":
                 self.cov["skipped_no_bindings"] += 1
+                if self.skip_key and (self.skip_filter is None or self.skip_filter(ev)):
+                    k = hashlib.sha1(json.dumps({f: ev.get(f) for f in self.skip_key if f in ev}, sort_keys=True).encode()).hexdigest()[:16]
+                    self.skipped.setdefault(k, (what, ev))
             elif kind == "DEVIATION":
                 self.deviations.setdefault(what, []).append(ev)
             elif kind == "MISMATCH":
@@ -313,6 +319,23 @@ class Run:
     def finish(self, level="model_checking"):
         out_lines = []
         n_viol = 0
+        # Cases that are skipped (Err, warning, nothing generated) are not judged.  For the checks whose case space is enumerated
+        # by TLC, the skipped cases of the reference tree are committed (baselines/<ID>.skips, by hash of the case): a case that is
+        # skipped now but was judged on the reference tree means the compiler newly rejects, or newly drops, a legal input.
+        if self.skip_key:
+            bpath = os.path.join(ROOT, "baselines", f"{self.pid}.skips")
+            base = set(open(bpath).read().split()) if os.path.exists(bpath) else None
+            if os.environ.get("VERIF_WRITE_BASELINE") == "1":
+                os.makedirs(os.path.dirname(bpath), exist_ok=True)
+                open(bpath, "w").write("\n".join(sorted((base or set()) | set(self.skipped))) + "\n")
+                log(f"[baseline] {bpath}: {len((base or set()) | set(self.skipped))} skipped cases recorded")
+            elif base is None:
+                raise ToolError(f"no skip baseline {bpath}; create it with VERIF_WRITE_BASELINE=1")
+            else:
+                for k, (what, ev) in self.skipped.items():
+                    if k not in base:
+                        self.violations.append((f"a case that is judged on the reference tree is no longer judged ({what}): the compiler newly rejects or drops a legal input", ev))
+            self.cov["skipped_cases_known_to_the_baseline"] = len(self.skipped) if base is None else len([k for k in self.skipped if k in base])
         for d, evs in sorted(self.deviations.items()):
             self.cov["deviations_seen"][d] = len(evs)
             if d in self.known:
